@@ -34,10 +34,29 @@ using elem_t = C10_ELEM;
 using arr_t  = na::ndarray_t<std::vector<elem_t>, std::vector<size_t>>;
 using carr_t = na::column_major_ndarray_t<std::vector<elem_t>, std::vector<size_t>>;
 
+// operand storage kinds besides the dynamic ones (shape (2,3) where the type fixes it, any 2-d shape of <= 12 elements else)
+using nested_t  = std::array<std::array<elem_t,3>,2>;                                    // fixed
+using fixed_t   = na::fixed_ndarray<elem_t,2,3>;                                         // fixed
+using cshape_t  = na::ndarray_t<nmtools_array<elem_t,6>, nmtools_tuple<meta::ct<2ul>,meta::ct<3ul>>>;   // fixed (constant shape)
+using hybrid_t  = na::hybrid_ndarray<elem_t,12,2>;                                       // bounded
+using bounded_t = na::ndarray_t<na::static_vector<elem_t,12>, nmtools_array<size_t,2>>;  // bounded buffer, fixed dim
+using cbounded_t = na::column_major_ndarray_t<na::static_vector<elem_t,12>, nmtools_array<size_t,2>>;
+using dynfd_t   = na::ndarray_t<std::vector<elem_t>, nmtools_array<size_t,2>>;           // dynamic buffer, fixed dim
+
+template <typename A> inline bool shape_to(A& a, const uvec& s) {
+    if constexpr (std::is_same_v<A,nested_t> || std::is_same_v<A,fixed_t> || std::is_same_v<A,cshape_t>) return s == uvec{2,3};
+    else if constexpr (std::is_same_v<A,hybrid_t>) { if (s.size() != 2 || s[0]*s[1] > 12) return false; return a.resize(s[0], s[1]); }
+    else if constexpr (std::is_same_v<A,bounded_t> || std::is_same_v<A,cbounded_t> || std::is_same_v<A,dynfd_t>) {
+        if (s.size() != 2 || (!std::is_same_v<A,dynfd_t> && s[0]*s[1] > 12)) return false;
+        a.resize(nmtools_array<size_t,2>{s[0], s[1]}); return true;
+    } else { a.resize(s); return true; }
+}
+
 template <typename A = arr_t> inline A mk(const uvec& s, int base = 0) {
-    A a; a.resize(s);
+    A a{}; if (!shape_to(a, s)) throw bad_args("shape for this storage kind");
     // logical element at multi-index i = base + row-major flat id of i (also for a column-major buffer)
-    auto nd = ix::ndindex(s); size_t n = nd.size();
+    auto shp = nm::shape(a);                       // ndindex keeps a reference to the shape it is given
+    auto nd = ix::ndindex(shp); size_t n = nd.size();   // index kind of the array's own shape kind
     for (size_t k = 0; k < n; k++) nm::apply_at(a, nd[k]) = (elem_t)((int)k + base);
     return a;
 }
@@ -55,10 +74,16 @@ template <typename T> inline void put(std::ostringstream& o, T v) {
     else o << (long long)v;
 }
 template <typename S> inline uvec to_uvec(const S& shp) {
-    uvec s; for (size_t i = 0; i < (size_t)nm::len(shp); i++) s.push_back((size_t)nm::at(shp, i));
+    uvec s;
+    if constexpr (meta::is_constant_index_array_v<S>) {   // tuple of integral constants (fixed-shape results)
+        constexpr auto v = meta::to_value_v<S>;
+        for (size_t i = 0; i < (size_t)nm::len(v); i++) s.push_back((size_t)nm::at(v, i));
+    } else for (size_t i = 0; i < (size_t)nm::len(shp); i++) s.push_back((size_t)nm::at(shp, i));
     return s;
 }
 
+template <typename T> struct is_std_array : std::false_type {};
+template <typename T, size_t N> struct is_std_array<std::array<T,N>> : std::true_type {};
 // what is observable of an array or a view: shape + every element in C order of its own shape (through apply_at)
 struct Obs { std::string err; uvec shape; std::string data; };
 template <typename V> inline Obs observe(const V& v) {
@@ -70,10 +95,13 @@ template <typename V> inline Obs observe(const V& v) {
     r.shape = to_uvec(nm::shape(v));
     if ((size_t)nm::dim(v) != r.shape.size()) { r.err = "dim-mismatch"; return r; }
     size_t n = 1; for (auto e : r.shape) n *= e;
-    if ((size_t)nm::size(v) != n) { r.err = "size-mismatch"; return r; }
+    // (nmtools::size of a *nested std::array* is its outer length, not its element count: not checked for that kind)
+    if constexpr (!is_std_array<V>::value) if ((size_t)nm::size(v) != n) { r.err = "size-mismatch"; return r; }
     using T = meta::remove_cvref_t<meta::get_element_type_t<V>>;
     std::ostringstream o; if (n == 0) o << "[]";
-    auto nd = ix::ndindex(r.shape);
+    auto shp = nm::shape(v);
+    auto nd = ix::ndindex(shp);               // as the evaluator does: indices of the view's own shape kind
+    if ((size_t)nd.size() != n) { r.err = "ndindex-size-mismatch"; return r; }
     try { for (size_t k = 0; k < n; k++) { if (k) o << ','; put<T>(o, (T)nm::apply_at(v, nd[k])); } }
     catch (const std::out_of_range&) { r.err = "oob"; return r; }
     r.data = o.str(); return r;
@@ -112,11 +140,13 @@ inline std::vector<Op> parse_ops(const std::string& s) {
 // op codes (bit positions of the C10_MASKn masks)
 enum : unsigned {
     TRANSPOSE = 0, RESHAPE, FLATTEN, EXPAND_DIMS, SQUEEZE, FLIP, MOVEAXIS, TILE, REPEAT, ROLL, PAD, TAKE, SLICE,
-    BROADCAST_TO, ADDB, MULB, WHERE, SUM, PROD, AMAX, CUMSUM, MATMUL, CONCATENATE, STACK, SOFTMAX, SUMRT, NOPS
+    BROADCAST_TO, ADDB, MULB, WHERE, SUM, PROD, AMAX, CUMSUM, MATMUL, CONCATENATE, STACK, SOFTMAX, SUMRT,
+    // compile-time arguments (so that a fixed-shape operand gives a fixed-shape view) and self-binary operations
+    TRANSPOSE_N, RESHAPE_CT, SUM_CT, TILE_CT, ADDSELF, CONCATSELF, NOPS
 };
 inline const char* op_names[] = {"transpose", "reshape", "flatten", "expand_dims", "squeeze", "flip", "moveaxis", "tile",
     "repeat", "roll", "pad", "take", "slice", "broadcast_to", "addb", "mulb", "where", "sum", "prod", "amax", "cumsum",
-    "matmul", "concatenate", "stack", "softmax", "sumrt"};
+    "matmul", "concatenate", "stack", "softmax", "sumrt", "transpose_n", "reshape_ct", "sum_ct", "tile_ct", "addself", "concatself"};
 inline int op_code(const std::string& n) { for (unsigned k = 0; k < NOPS; k++) if (n == op_names[k]) return (int)k; return -1; }
 
 #ifndef C10_MASK0
